@@ -122,9 +122,44 @@ func paramName(f *ssa.Function, i int) string {
 }
 
 // C11 decides rule PURE.
-func C11(p *core.Prog, r *core.Report) {
-	r.Rule("PURE", "for every operation in the derived table (exported functions and value-receiver methods of gts and gts/seqio that take a slice, map, repo interface or struct of those, and have no pointer / io.Reader / io.Writer in their signature) the set of (parameter, cell type) that the operation or anything it calls may write is empty; writes by append into spare capacity, copy, library mutators and through sub-slices included", 60)
-	r.Rule("OPS", "the 16 operations named by the property are in the derived table", 16)
+func C11(p *core.Prog, r *core.Report) { pure(p, r, nil, required, 60) }
+
+// PureOps decides rule PURE for the named operations only ("Name" a gts or
+// seqio function, "(T).Name" a method, "*.Name" that method on every receiver
+// type): the properties about one edit operation include "and it leaves its
+// inputs alone", because a later result computed from a damaged input is wrong.
+func PureOps(floor int, names ...string) func(p *core.Prog, r *core.Report) {
+	return func(p *core.Prog, r *core.Report) {
+		var req []string
+		for _, n := range names {
+			if !strings.HasPrefix(n, "*.") {
+				req = append(req, n)
+			}
+		}
+		pure(p, r, func(nm string) bool {
+			for _, n := range names {
+				if n == nm {
+					return true
+				}
+				if strings.HasPrefix(n, "*.") && strings.HasSuffix(nm, ")"+n[1:]) {
+					return true
+				}
+			}
+			return false
+		}, req, floor)
+	}
+}
+
+func opName(f *ssa.Function) string {
+	if f.Signature.Recv() != nil {
+		return "(" + types.TypeString(f.Signature.Recv().Type(), func(*types.Package) string { return "" }) + ")." + f.Name()
+	}
+	return f.Name()
+}
+
+func pure(p *core.Prog, r *core.Report, only func(string) bool, required []string, floor int) {
+	r.Rule("PURE", "for every operation in the derived table (exported functions and value-receiver methods of gts and gts/seqio that take a slice, map, repo interface or struct of those, and have no pointer / io.Reader / io.Writer in their signature) the set of (parameter, cell type) that the operation or anything it calls may write is empty; writes by append into spare capacity, copy, library mutators and through sub-slices included", floor)
+	r.Rule("OPS", "the operations named by the property are in the derived table", len(required))
 	r.Rule("AXIOMS", "every external callee that receives argument-derived mutable memory is in the library axiom table", 0)
 	r.NotDecided = append(r.NotDecided, "writes performed by code outside the repository other than through the axiom table", "observability through unexported state that no accessor exposes")
 	r.Assumptions = append(r.Assumptions,
@@ -135,11 +170,29 @@ func C11(p *core.Prog, r *core.Report) {
 	a := New(p)
 	a.Exempt("(*"+core.PkgSeqio+".Origin).Bytes", "idempotent representation cache")
 	ops0, _ := operations(a)
+	if only != nil {
+		var keep []*ssa.Function
+		for _, f := range ops0 {
+			if only(opName(f)) {
+				keep = append(keep, f)
+			}
+		}
+		ops0 = keep
+	}
 	a.Restrict(ops0)
 	rounds := a.Solve()
 	r.Extra["fixpoint_rounds"] = rounds
 	r.Extra["functions_summarised"] = len(a.funcs)
 	ops, skipped := operations(a)
+	if only != nil {
+		var keep []*ssa.Function
+		for _, f := range ops {
+			if only(opName(f)) {
+				keep = append(keep, f)
+			}
+		}
+		ops = keep
+	}
 	r.Extra["operations"] = len(ops)
 	r.Extra["mutators_by_contract"] = len(skipped)
 
@@ -163,13 +216,7 @@ func C11(p *core.Prog, r *core.Report) {
 	cells := map[string]map[string]bool{}
 	for _, f := range ops {
 		r.Fn(short(f))
-		nm := f.Name()
-		if f.Signature.Recv() != nil {
-			nm = "(" + types.TypeString(f.Signature.Recv().Type(), func(*types.Package) string { return "" }) + ")." + f.Name()
-		}
-		if f.Pkg.Pkg.Path() == core.PkgGts {
-			have[nm] = true
-		}
+		have[opName(f)] = true
 		ws := a.Writes(f)
 		if len(ws) == 0 {
 			r.Ok("PURE", short(f), p.Pos(f.Pos()), "no write can land in memory reachable from its arguments")
